@@ -82,6 +82,16 @@ def _to_el_expr(expr):
         raise TypeError(f"Invalid expression type {type(expr)}")
 
 
+def _make_el_op(exprs_in, exprs_out):
+    # Build the signature of the elementary operation directly from (copies of) the given expressions. Printing them to
+    # a string and parsing that string again is not possible for all expressions (e.g. "[a b]..." yields "{a b}...")
+    # and would assign new names to unnamed axes.
+    return stage1.Op([stage1.Args([expr.__deepcopy__() for expr in exprs_in]), stage1.Args([expr.__deepcopy__() for expr in exprs_out])])
+
+
+_el_scalar = stage1.List([])
+
+
 def _parse_op(description, el_op, invocation, allow_concat=False, implicit_output=None, mark_reduced_axes=False, allow_duplicate_el_axes=True, keepdims=False):
     if not isinstance(description, str):
         raise ValueError("The operation description must be a string.")
@@ -111,7 +121,8 @@ def _parse_op(description, el_op, invocation, allow_concat=False, implicit_outpu
         el_op = stage1.parse_op(el_op)
     elif callable(el_op):
         el_op = el_op(el_subop)
-        el_op = stage1.parse_op(el_op)
+        if isinstance(el_op, str):
+            el_op = stage1.parse_op(el_op)
     else:
         raise ValueError(f"Invalid type for el_op: {type(el_op)}.")
     assert len(el_op.children) == 2
@@ -667,7 +678,7 @@ def elementwise(op, **kwargs):
 
 def dot(op, **kwargs):
     def el_op(op):
-        return f"{op.children[0]} ->"
+        return _make_el_op(op.children[0].children, [_el_scalar])
 
     return globals()["op"](
         op, el_op=el_op, implicit_output="bijective", mark_reduced_axes=True, allow_duplicate_el_axes=False, check=_semantic_checks_dot, **kwargs
@@ -711,7 +722,7 @@ def _equations_stage3_index_at(exprs_in, exprs_out, invocation, is_update):
 
 def get_at(op, **kwargs):
     def el_op(op):
-        return ", ".join(str(c) for c in op.children[0].children) + " ->"
+        return _make_el_op(op.children[0].children, [_el_scalar])
 
     return globals()["op"](
         op,
@@ -725,7 +736,7 @@ def get_at(op, **kwargs):
 
 def update_at(op, **kwargs):
     def el_op(op):
-        return ", ".join(str(c) for c in op.children[0].children[:-1]) + f", -> {op.children[0].children[0]}"
+        return _make_el_op(list(op.children[0].children[:-1]) + [_el_scalar], [op.children[0].children[0]])
 
     op = globals()["op"](
         op,
@@ -750,7 +761,7 @@ def update_at(op, **kwargs):
 
 def reduce(op, **kwargs):
     def el_op(op):
-        return f"{op.children[0].children[0]} ->"
+        return _make_el_op([op.children[0].children[0]], [_el_scalar])
 
     return globals()["op"](op, el_op=el_op, implicit_output="bijective", mark_reduced_axes=True, add_keepdims_param=True, **kwargs)
 
@@ -792,16 +803,16 @@ def _equations_stage3_argfind(exprs_in, exprs_out, invocation):
 def argfind(op, **kwargs):
     def el_op(op):
         if len(op.children) == 1 or op.children[1].children[0].ndim != 0:
-            return f"{op.children[0].children[0]} -> a{uuid.uuid4().int}"
+            return _make_el_op([op.children[0].children[0]], [stage1.Axis(f"a{uuid.uuid4().int}", None)])
         else:
-            return f"{op.children[0].children[0]} ->"
+            return _make_el_op([op.children[0].children[0]], [_el_scalar])
 
     return globals()["op"](op, el_op=el_op, implicit_output="bijective", check=_semantic_checks_argfind, equations_stage3=_equations_stage3_argfind, **kwargs)
 
 
 def preserve_shape(op, **kwargs):
     def el_op(op):
-        return f"{op.children[0].children[0]} -> {op.children[0].children[0]}"
+        return _make_el_op([op.children[0].children[0]], [op.children[0].children[0]])
 
     return globals()["op"](op, el_op=el_op, implicit_output="bijective", no_el_axis_permute=True, **kwargs)
 
